@@ -3,6 +3,7 @@ package main
 // Values: every Go value is a typed vector of SMT terms ("components").
 
 import (
+	"regexp"
 	"fmt"
 	"go/types"
 	"math/big"
@@ -86,8 +87,24 @@ func kindOf(t types.Type) Kind {
 
 var layoutCache = map[string][]Comp{}
 
+var typeKeyCache = map[types.Type]string{}
+var byteWord = regexp.MustCompile(`\bbyte\b`)
+var runeWord = regexp.MustCompile(`\brune\b`)
+
 func typeKey(t types.Type) string {
-	return types.TypeString(t, func(p *types.Package) string { return p.Name() })
+	if k, ok := typeKeyCache[t]; ok {
+		return k
+	}
+	k := types.TypeString(t, func(p *types.Package) string {
+		path := p.Path()
+		path = strings.TrimPrefix(path, "github.com/tdewolff/")
+		return path
+	})
+	// byte/uint8 and rune/int32 are the same types
+	k = byteWord.ReplaceAllString(k, "uint8")
+	k = runeWord.ReplaceAllString(k, "int32")
+	typeKeyCache[t] = k
+	return k
 }
 
 func layout(t types.Type) []Comp {
